@@ -506,6 +506,7 @@ type LemmaStep struct {
 }
 
 type EventClause struct {
+	Results []Clause // assumptions about the result of the callback (configuration assumptions, listed in the evidence)
 	Uses    []Clause // instances of built-in lemmas (valid formulas) assumed at the event
 	Kind    string // on-call | on-send | at | on-entry
 	Target  string // e.g. r.ForwardToBackend  or mapupdate(s.rbcInProgress)
@@ -543,6 +544,7 @@ type Contract struct {
 	NoPanicOff bool
 	Holds      []string // locks held at entry (requires held(l))
 	Unit       bool     // verify as a unit even if only inlined elsewhere
+	Seq        bool     // sequential reading: monitors do not havoc guarded state at acquire (histories, not interleavings)
 }
 
 type SpecFunc struct {
@@ -631,7 +633,7 @@ func specLines(f *ast.File, fset *token.FileSet) []struct {
 	return out
 }
 
-var clauseKeywords = []string{"ghost-var", "requires-captured", "on-entry", "use", "requires", "ensures", "modifies", "loop", "inline", "pure", "trusted", "ghost-param", "on-call", "on-send", "at", "decreases",
+var clauseKeywords = []string{"assume-result", "seq", "ghost-var", "requires-captured", "on-entry", "use", "requires", "ensures", "modifies", "loop", "inline", "pure", "trusted", "ghost-param", "on-call", "on-send", "at", "decreases",
 	"props", "let", "assert", "guards", "invariant", "ghost", "field", "holds", "unit", "recv", "call"}
 
 func stripComment(s string) string {
@@ -847,6 +849,10 @@ func parseContractFile(pkg string, path string, f *ast.File, fset *token.FileSet
 			if cur != nil {
 				cur.Unit = true
 			}
+		case "seq":
+			if cur != nil {
+				cur.Seq = true
+			}
 		case "holds":
 			if cur != nil {
 				cur.Holds = append(cur.Holds, strings.Fields(rest)...)
@@ -877,6 +883,12 @@ func parseContractFile(pkg string, path string, f *ast.File, fset *token.FileSet
 			if cur != nil {
 				cur.Decreases = parse(it.line, rest)
 			}
+		case "assume-result":
+			if curEvent == nil {
+				errf(it.line, "assume-result outside an event clause")
+				continue
+			}
+			curEvent.Results = append(curEvent.Results, namedClause(it.line, rest))
 		case "use":
 			if curEvent == nil {
 				errf(it.line, "use outside an event clause")
@@ -987,7 +999,7 @@ func parseContractFile(pkg string, path string, f *ast.File, fset *token.FileSet
 		default:
 			errf(it.line, "unknown clause %q", kw)
 		}
-		if kw != "on-call" && kw != "on-send" && kw != "at" && kw != "on-entry" && kw != "use" && kw != "assert" && kw != "ghost" && kw != "requires" {
+		if kw != "on-call" && kw != "on-send" && kw != "at" && kw != "on-entry" && kw != "use" && kw != "assume-result" && kw != "assert" && kw != "ghost" && kw != "requires" {
 			curEvent = nil
 		}
 	}
